@@ -1604,7 +1604,7 @@ class Context:
             + (time_within is None)
             + (full_range is None)
         )
-        if selection < 2:
+        if selection < 3:
             raise RuntimeError(
                 "Pass no more than one one of time_range, seconds_range, time_within, or full_range"
             )
